@@ -336,3 +336,28 @@ def proof_stage(rep: Report, pid, extra_trusted=()):
         m = re.findall(r'File "([^"]+)", line (\d+)[^\n]*\n(?:.*\n){0,12}?Error:[^\n]*(?:\n[^\n]+){0,6}', out)
         problems.append(("proof", (pr["output"][-2500:] or "") + "\n--- make log tail ---\n" + out[-2500:]))
     return {"ok": not problems, "problems": problems, "props": pr, "make_ok": ok}
+
+
+class ScratchReport(Report):
+    """collects violations without writing replays or printing (used to replay a recorded violation by re-running)"""
+
+    def __init__(self, pid, tier, seed):
+        super().__init__(pid, tier, seed)
+        self.found = {}
+
+    def violation(self, sig, kind, detail, no_input=False):
+        self.found.setdefault(sig, (kind, detail, no_input))
+        return True
+
+
+def replay_by_rerun(mod, rep, body):
+    """re-run the whole check with the recorded tier and seed; the violation is reproduced iff its signature recurs"""
+    scratch = ScratchReport(rep.pid, body.get("tier", "quick"), body.get("seed", 0))
+    mod.run(scratch, scratch.tier, scratch.seed)
+    sig = body["signature"]
+    if sig in scratch.found:
+        kind, detail, no_input = scratch.found[sig]
+        print("reproduced:", detail.get("what"))
+        rep.violation(sig, kind, detail, no_input=no_input)
+    else:
+        print("does not reproduce on the current tree")
